@@ -32,7 +32,7 @@ def ic_ode(m, with_param_batch, B=2, u0_int=False):
                   input_transform=sum_a_transform if with_param_batch else None)
         def fn(th, t0, u0, w, a, acol):
             params = net.params(th, {"a": a})
-            loss = LossODE(u=net.u, dynamic_loss=None, params=params, initial_condition=(t0, u0),
+            loss = mk_loss(LossODE, u=net.u, dynamic_loss=None, params=params, initial_condition=(t0, u0),
                            loss_weights=LossWeightsODE(initial_condition=w))
             batch = ODEBatch(temporal_batch=jnp.zeros((B,)), param_batch_dict={"a": acol} if with_param_batch else None)
             return loss.evaluate(params, batch)[1]["initial_condition"]
@@ -60,7 +60,7 @@ def ic_pde(d, B, m, wkind, fshape, via):
             params = net.params(th)
             if via == "apply":
                 return initial_condition_apply(net.u, xs, params, (0, None), lambda x: u0(x), B, w)
-            loss = LossPDENonStatio(u=net.u, dynamic_loss=None, params=params, initial_condition_fun=lambda x: u0(x),
+            loss = mk_loss(LossPDENonStatio, u=net.u, dynamic_loss=None, params=params, initial_condition_fun=lambda x: u0(x),
                                     loss_weights=LossWeightsPDENonStatio(initial_condition=w))
             batch = PDENonStatioBatch(times_x_inside_batch=jnp.concatenate([jnp.ones((B, 1)) * 0.7, xs], axis=1),
                                       times_x_border_batch=None)
@@ -93,12 +93,12 @@ def norm(kind, d, S, Bt, m, via):
                 axes = (0, 0, None) if time else (0, None)
                 return normalization_loss_apply(net.u, batches, params, axes, L, w)
             if time:
-                loss = LossPDENonStatio(u=net.u, dynamic_loss=None, params=params, norm_samples=ns, norm_int_length=L,
+                loss = mk_loss(LossPDENonStatio, u=net.u, dynamic_loss=None, params=params, norm_samples=ns, norm_int_length=L,
                                         loss_weights=LossWeightsPDENonStatio(norm_loss=w))
                 batch = PDENonStatioBatch(times_x_inside_batch=jnp.concatenate([ts, jnp.zeros((Bt, d))], axis=1),
                                           times_x_border_batch=None)
             else:
-                loss = LossPDEStatio(u=net.u, dynamic_loss=None, params=params, norm_samples=ns, norm_int_length=L,
+                loss = mk_loss(LossPDEStatio, u=net.u, dynamic_loss=None, params=params, norm_samples=ns, norm_int_length=L,
                                      loss_weights=LossWeightsPDEStatio(norm_loss=w))
                 batch = PDEStatioBatch(inside_batch=jnp.zeros((1, d)), border_batch=None)
             return loss.evaluate(params, batch)[1]["norm_loss"]
@@ -133,15 +133,15 @@ def observations(kind, B, m, ssl, osl, wkind, obs_param, valshape="2d"):
             obs = {"pinn_in": pin, "val": val if valshape == "2d" else val[:, 0],
                    "eq_params": {"a": acol} if obs_param else {}}
             if kind == "ODE":
-                loss = LossODE(u=net.u, dynamic_loss=None, params=params, initial_condition=None, obs_slice=osl,
+                loss = mk_loss(LossODE, u=net.u, dynamic_loss=None, params=params, initial_condition=None, obs_slice=osl,
                                loss_weights=LossWeightsODE(observations=w))
                 batch = ODEBatch(temporal_batch=jnp.zeros((B,)), obs_batch_dict=obs)
             elif kind == "statio":
-                loss = LossPDEStatio(u=net.u, dynamic_loss=None, params=params, obs_slice=osl,
+                loss = mk_loss(LossPDEStatio, u=net.u, dynamic_loss=None, params=params, obs_slice=osl,
                                      loss_weights=LossWeightsPDEStatio(observations=w))
                 batch = PDEStatioBatch(inside_batch=jnp.zeros((B, din)), border_batch=None, obs_batch_dict=obs)
             else:
-                loss = LossPDENonStatio(u=net.u, dynamic_loss=None, params=params, obs_slice=osl,
+                loss = mk_loss(LossPDENonStatio, u=net.u, dynamic_loss=None, params=params, obs_slice=osl,
                                         loss_weights=LossWeightsPDENonStatio(observations=w))
                 batch = PDENonStatioBatch(times_x_inside_batch=jnp.zeros((B, din)), times_x_border_batch=None,
                                           obs_batch_dict=obs)
